@@ -13,3 +13,4 @@ open GoRedis
 #print axioms C10_setex_nonpositive
 #print axioms C10_zrange_fractional_index
 #print axioms C10_strlen_missing_key
+#print axioms C10_source_shapes_match_model
